@@ -35,7 +35,8 @@
 //!   generate   gen_graph(rng) (DESIGN.md Appendix B), gen_costs(rng,m,family), gen_world(rng,family),
 //!              gen_frontier(rng,&mut World), gen_heuristic(rng,&mut World,dir,target,kind),
 //!              true_dist(&World,dir,target), reachable(&World,dir,start), gen_query(rng,&World), boundary_cases() (C01/C05 families),
-//!              absorption_cases()
+//!              absorption_cases() (2^60 absorption + long-haul/zero-length mutual edges), reopen_cases(),
+//!              add_reopen_gadget(rng,&mut World,&Query), reopened_and_target_popped_first(&World,&Query) (histogram statistic only)
 use crate::*;
 use routee_compass_core::algorithm::search::direction::Direction;
 use routee_compass_core::algorithm::search::search_algorithm::SearchAlgorithm;
@@ -659,6 +660,9 @@ pub enum CostFamily {
     TieFree,
     /// integers 1..3: many equal labels and equal priorities
     TieRich,
+    /// long haul: a few edges of cost 2^21..2^40 among zero-cost, sub-MIN_COST (1e-12) and unit edges, so that the
+    /// clamped 1e-10 edge cost is absorbed by the f64 addition and both ends of an edge carry bit-identical labels
+    LongHaul,
 }
 
 /// DESIGN.md Appendix B: n in 3..40 (small sizes more likely), out-degree 0..8 with at least one vertex above 5,
@@ -717,6 +721,12 @@ pub fn gen_costs(rng: &mut Rng, m: usize, fam: CostFamily) -> Vec<f64> {
         .map(|_| match fam {
             CostFamily::TieFree => rng.range(1, (1 << 20) - 1) as f64 / 64.0,
             CostFamily::TieRich => rng.range(1, 3) as f64,
+            CostFamily::LongHaul => match rng.below(8) {
+                0 | 1 => (1u64 << rng.range(21, 40)) as f64,
+                2 | 3 | 4 => 0.0,
+                5 => 1e-12,
+                _ => 1.0,
+            },
         })
         .collect()
 }
@@ -864,14 +874,17 @@ pub fn gen_world(rng: &mut Rng, fam: CostFamily) -> (World, Vec<&'static str>) {
 }
 
 pub const WEIGHT_FACTORS: [f64; 4] = [0.0, 0.5, 1.0, 3.0];
+/// large factors make the heuristic strongly inconsistent: settled vertices get re-opened
+pub const LARGE_WEIGHT_FACTORS: [f64; 2] = [10.0, 20.0];
 
 /// random query on a world: orientation, direction, algorithm, endpoints (mostly valid, distinct), heuristic kind
 pub fn gen_query(rng: &mut Rng, w: &mut World) -> (Query, HKind) {
     let orient = if rng.chance(1, 3) && !w.edges.is_empty() { Orient::Edge } else { Orient::Vertex };
     let dir = if rng.chance(1, 2) { Dir::Forward } else { Dir::Reverse };
-    let alg = match rng.below(6) {
+    let alg = match rng.below(8) {
         0 => Alg::Dijkstra,
         1 => Alg::AStar(None),
+        2 | 3 => Alg::AStar(Some(*rng.pick(&LARGE_WEIGHT_FACTORS))),
         _ => Alg::AStar(Some(*rng.pick(&WEIGHT_FACTORS))),
     };
     let dom = match orient {
@@ -1063,5 +1076,197 @@ pub fn absorption_cases() -> Vec<(String, World, Query)> {
         let we = World::new(5, vec![(4, 0), (0, 1), (1, 2), (2, 1), (3, 3)], vec![1.0, big, 1.0, 1.0, 1.0]);
         out.push(("absorb_edge_oriented".into(), we, eq(alg, Dir::Forward, 0, Some(4))));
     }
+    // long haul + zero-length mutual edges: accumulated cost 2^21 .. 2^40, then edges of cost 0 (clamped to 1e-10) or
+    // 1e-12 pointing at each other, in both edge-id orders; the 1e-10 is absorbed, so both ends carry bit-identical
+    // labels and only the STRICT test of the relaxation keeps the first parent (seeded change C01-4)
+    for k in [21u32, 22, 30, 40] {
+        let big = (1u64 << k) as f64;
+        for tiny in [0.0, 1e-12] {
+            for dir in [Dir::Forward, Dir::Reverse] {
+                let mk = |es: &[(usize, usize)], cs: &[f64]| {
+                    let es2: Vec<(usize, usize)> = es.iter().map(|(a, b)| if dir == Dir::Reverse { (*b, *a) } else { (*a, *b) }).collect();
+                    World::new(5, es2, cs.to_vec())
+                };
+                // back edge 2->1 has the LOWER id than the haul edge 0->1
+                let lo = mk(&[(2, 1), (0, 1), (1, 2), (0, 3)], &[tiny, big, tiny, 2.0 * big]);
+                // back edge has the HIGHER id
+                let hi = mk(&[(0, 1), (1, 2), (2, 1), (0, 3)], &[big, tiny, tiny, 2.0 * big]);
+                // 3-cycle 1->2->4->1 behind the haul, closing edge with the lower id
+                let c3 = mk(&[(4, 1), (0, 1), (1, 2), (2, 4), (0, 3)], &[tiny, big, tiny, tiny, 2.0 * big]);
+                for (nm, w) in [("back_lower", lo), ("back_higher", hi), ("three_cycle", c3)] {
+                    let fam = format!("haul_zero_{}", nm);
+                    out.push((fam.clone(), w.clone(), vq(Alg::Dijkstra, dir, 0, None)));
+                    out.push((fam.clone(), w.clone(), vq(Alg::Dijkstra, dir, 0, Some(3))));
+                    if k == 21 && tiny == 0.0 {
+                        out.push((fam.clone(), w.clone(), vq(Alg::AStar(Some(1.0)), dir, 0, Some(3))));
+                        // the cycle vertex as destination: the route passes the mutual edges
+                        out.push((fam, w, vq(Alg::Dijkstra, dir, 0, Some(2))));
+                    }
+                }
+            }
+        }
+    }
     out
+}
+
+/// re-open family (seeded change C01-5): S=0, R=1, C=2, X=3, T=4.  R is settled early over the expensive edge S->R
+/// and gets the child C; the cheap detour S->X->R re-opens R (pushed back on the queue) and the destination T is
+/// popped before R is popped again.  The returned tree must still hold R (C names it as its parent).
+pub fn reopen_cases() -> Vec<(String, World, Query)> {
+    let mut out = vec![];
+    for (wf, hx) in [(3.0, 400.0), (10.0, 111.0), (20.0, 111.0), (1.0, 1200.0)] {
+        for dir in [Dir::Forward, Dir::Reverse] {
+            let flip = |es: &[(usize, usize)]| -> Vec<(usize, usize)> { es.iter().map(|(a, b)| if dir == Dir::Reverse { (*b, *a) } else { (*a, *b) }).collect() };
+            let mut w = World::new(5, flip(&[(0, 1), (0, 3), (3, 1), (3, 4), (1, 2)]), vec![1000.0, 120.0, 230.0, 120.0, 100.0]);
+            w.h = vec![2.0 * hx, 0.0, 0.0, hx, 0.0];
+            out.push(("reopen_target_first".into(), w.clone(), vq(Alg::AStar(Some(wf)), dir, 0, Some(4))));
+            let mut q2 = vq(Alg::Dijkstra, dir, 0, Some(4));
+            q2.query_wf = Some(wf);
+            out.push(("reopen_target_first".into(), w.clone(), q2));
+            // control: Dijkstra settles X first, nothing is re-opened
+            out.push(("reopen_control_dijkstra".into(), w.clone(), vq(Alg::Dijkstra, dir, 0, Some(4))));
+            // edge-oriented: origin edge 5->S, destination edge T->6
+            let mut we = World::new(7, flip(&[(0, 1), (0, 3), (3, 1), (3, 4), (1, 2), (5, 0), (4, 6)]), vec![1000.0, 120.0, 230.0, 120.0, 100.0, 1.0, 1.0]);
+            we.h = vec![2.0 * hx, 0.0, 0.0, hx, 0.0, 0.0, 0.0];
+            out.push(("reopen_target_first_edge_oriented".into(), we, eq(Alg::AStar(Some(wf)), dir, 5, Some(6))));
+            // a grandchild below the re-opened vertex and a second re-opened vertex
+            let mut w3 = World::new(8, flip(&[(0, 1), (0, 3), (3, 1), (3, 4), (1, 2), (2, 5), (0, 6), (3, 6), (6, 7)]), vec![1000.0, 120.0, 230.0, 120.0, 100.0, 50.0, 1000.0, 230.0, 100.0]);
+            w3.h = vec![2.0 * hx, 0.0, 0.0, hx, 0.0, 0.0, 0.0, 0.0];
+            out.push(("reopen_two_vertices".into(), w3, vq(Alg::AStar(Some(wf)), dir, 0, Some(4))));
+        }
+    }
+    out
+}
+
+/// bias a random vertex-oriented destination query towards re-opening: graft the gadget of `reopen_cases` between
+/// the query's source and target (three new vertices R, C, X; five new edges appended after the existing ones, so
+/// existing edge ids and adjacency order are unchanged).  Returns false when the query is not suitable.
+pub fn add_reopen_gadget(rng: &mut Rng, w: &mut World, q: &Query) -> bool {
+    let wf = q.query_wf.unwrap_or(match q.alg {
+        Alg::Dijkstra => 0.0,
+        Alg::AStar(None) => 1.0,
+        Alg::AStar(Some(x)) => x,
+    });
+    let (s, t) = match (q.orient, q.target) {
+        (Orient::Vertex, Some(t)) if t != q.source && t < w.n && q.source < w.n && wf > 0.0 => (q.source, t),
+        _ => return false,
+    };
+    let (r, c, x) = (w.n, w.n + 1, w.n + 2);
+    w.n += 3;
+    let scale = *rng.pick(&[1.0, 0.5, 4.0]);
+    let mut add = |w: &mut World, a: usize, b: usize, cost: f64| {
+        w.edges.push(if q.dir == Dir::Forward { (a, b) } else { (b, a) });
+        w.cost.push(cost * scale);
+    };
+    add(w, s, r, 8.0);
+    add(w, s, x, 1.0);
+    add(w, x, r, 2.0);
+    add(w, x, t, 1.0);
+    add(w, r, c, 1.0);
+    w.h.resize(w.n, 0.0);
+    w.h[r] = 0.0;
+    w.h[c] = 0.0;
+    w.h[t] = 0.0;
+    // f(X) = 1 + wf*h[X] must exceed f(C) = 9 so that R and C are expanded before X
+    w.h[x] = (10.0 * scale / wf).ceil() + rng.below(4) as f64;
+    true
+}
+
+fn term_fires(t: &Term, size: usize, iters: u64) -> bool {
+    match t {
+        Term::Unlimited => false,
+        Term::Iter(l) => iters + 1 > *l,
+        Term::Size(l) => size > *l,
+        Term::Combined(v) => v.iter().any(|x| term_fires(x, size, iters)),
+    }
+}
+
+/// STATISTIC ONLY (never a verdict): a plain re-implementation of the search loop on the tables, used to count how
+/// many generated cases reach the situation "a vertex that already has a child in the tree is back on the queue
+/// (re-opened) when the destination is popped".  Returns false when the search does not end by popping the target.
+pub fn reopened_and_target_popped_first(w: &World, q: &Query) -> bool {
+    let key = |e: usize| if q.dir == Dir::Forward { w.edges[e].1 } else { w.edges[e].0 };
+    let term = |e: usize| if q.dir == Dir::Forward { w.edges[e].0 } else { w.edges[e].1 };
+    let (source, target) = match q.orient {
+        Orient::Vertex => match q.target {
+            Some(t) => (q.source, t),
+            None => return false,
+        },
+        Orient::Edge => match q.target {
+            Some(te) if q.source < w.edges.len() && te < w.edges.len() && te != q.source && key(q.source) != term(te) => (key(q.source), term(te)),
+            _ => return false,
+        },
+    };
+    if source >= w.n || target >= w.n || source == target {
+        return false;
+    }
+    let wf = q.query_wf.unwrap_or(match q.alg {
+        Alg::Dijkstra => 0.0,
+        Alg::AStar(None) => 1.0,
+        Alg::AStar(Some(x)) => x,
+    });
+    let pos = |x: f64| if x <= 0.0 { 1e-10 } else { x };
+    let hval = |v: usize, st: f64| {
+        let d = (st + w.h.get(v).copied().unwrap_or(0.0)) - st;
+        (if d < 0.0 { 0.0 } else { d }) * wf
+    };
+    let mut g: HashMap<usize, f64> = HashMap::from([(source, 0.0)]);
+    let mut tree: HashMap<usize, (usize, usize, f64)> = HashMap::new(); // v -> (parent, edge, state)
+    let mut pq: Vec<(usize, f64)> = vec![(source, hval(source, w.init))];
+    let mut iters = 0u64;
+    for _ in 0..(50 * (w.n + w.edges.len()) + 100) {
+        if term_fires(&w.term, tree.len(), iters) || pq.is_empty() {
+            return false;
+        }
+        let mut bi = 0;
+        for i in 1..pq.len() {
+            if pq[i].1 < pq[bi].1 {
+                bi = i;
+            }
+        }
+        let (v, _) = pq.remove(bi);
+        if v == target {
+            return pq.iter().any(|(x, _)| *x != target && tree.values().any(|(p, _, _)| p == x));
+        }
+        let (last, st) = if v == source { (None, w.init) } else { let t = tree[&v]; (Some(t.1), t.2) };
+        for e in 0..w.edges.len() {
+            if term(e) != v {
+                continue;
+            }
+            if w.ferr.contains(&e) || w.terr.contains(&e) {
+                return false;
+            }
+            if w.forbid.contains(&e) || last.map_or(false, |l| w.fturn.contains(&(l, e))) {
+                continue;
+            }
+            let (mut ac, mut st1) = (0.0, st);
+            if let Some(l) = last {
+                let (p, n) = if q.dir == Dir::Forward { (l, e) } else { (e, l) };
+                if let Some((_, _, c)) = w.turn.iter().rev().find(|(a, b, _)| *a == p && *b == n) {
+                    st1 = st + c;
+                }
+                ac = pos(st1 - st);
+            }
+            let st2 = st1 + w.cost[e];
+            let total = pos(st2 - st);
+            let inc = pos(ac + (total - ac));
+            let tent = g[&v] + inc;
+            let kv = key(e);
+            if g.get(&kv).map_or(true, |ex| tent < *ex) {
+                g.insert(kv, tent);
+                tree.insert(kv, (v, e, st2));
+                let f = tent + hval(kv, st);
+                match pq.iter_mut().find(|(x, _)| *x == kv) {
+                    Some(ent) => {
+                        if f < ent.1 {
+                            ent.1 = f;
+                        }
+                    }
+                    None => pq.push((kv, f)),
+                }
+            }
+        }
+        iters += 1;
+    }
+    false
 }
